@@ -978,6 +978,7 @@ fn main() {
             all.push(gen_storage_case(&mut r2));
         }
         for c in &all {
+            crash_guard(&a.out, "ResourceStorage::get_scriptlet_resources on this store and these injections", &c.json(""));
             match run_storage(c) {
                 Ok(script) => {
                     let rf = Ref { res: accepted_resources(&c.resources) };
@@ -996,6 +997,7 @@ fn main() {
     for _ in 0..150 * k {
         let res = gen_resources(&mut r);
         let name = if r.chance(1, 5) { r.pick(ALIASES).to_string() } else { res[r.below(res.len())].name.clone() };
+        crash_guard(&a.out, "get_redirect_resource / redirect through the engine", &json!({"kind": "redirect", "resources": res.iter().map(|x| x.json()).collect::<Vec<_>>(), "name": name}));
         let st = ResourceStorage::from_resources(res.iter().map(|x| x.to_resource()));
         let got = st.get_redirect_resource(&name);
         let rf = Ref { res: accepted_resources(&res) };
@@ -1023,6 +1025,9 @@ fn main() {
         ecases.push(gen_engine_case(&mut r));
     }
     for c in &ecases {
+        // a dependency cycle that the resolver does not cut overflows the stack (not a catchable
+        // panic): record the input first, ./check reports it if the process dies here
+        crash_guard(&a.out, "Engine::url_cosmetic_resources on this store and these rules", &c.json(&vec![true; c.rules.len()], ""));
         match run_engine(c) {
             Ok(run) => {
                 sm.oracle_evaluations += 1;
@@ -1041,6 +1046,7 @@ fn main() {
             Err(e) => sm.failure(None, &format!("url_cosmetic_resources panicked: {}", e), c.json(&vec![false; c.rules.len()], "")),
         }
     }
+    crash_guard_clear(&a.out);
     cs.finish();
     sm.write(&a.out, &cs);
 }
